@@ -320,6 +320,72 @@ def run_exhaustive_histories(ctx: Ctx, modes, idx, bound):
     ctx.exhaustive.update({"complete": True, "max_history_ops": bound})
 
 
+def run_clear_matrix(ctx: Ctx, modes, idx):
+    """POP_ALL (the only caller of Stack.clear) inside every kind of committed / rolled-back construct, for
+    every small combination of: entries present before, entries dropped or popped first (down to a low-water
+    mark of 0), fresh entries pushed before POP_ALL, entries pushed after it (seeded change S63). A rolled-back
+    group is followed by a literal that consumes the text the group had consumed, so the tail is reached."""
+    k = 0
+    for n0 in range(4):
+        for j in range(n0 + 1):
+            for m in range(3):
+                for after in range(2):
+                    for kind in _COMMIT + _ROLLBACK:
+                        for use_pop in (False, True):
+                            if use_pop and j == 0:
+                                continue
+                            for outer in (None, "opt", "and"):
+                                k += 1
+                                if k % 16 != idx:
+                                    continue
+                                old = tuple(_LET[i] for i in range(n0))
+                                pre = tuple(("pushlit", c) for c in old)
+                                stack = list(old)
+                                inner, text = [], ""
+                                for _ in range(j):
+                                    top = stack.pop()
+                                    if use_pop:
+                                        inner.append(("id", "POP"))
+                                        text += top
+                                    else:
+                                        inner.append(("id", "DROP"))
+                                for i in range(m):
+                                    inner.append(("pushlit", "xyz"[i]))
+                                    stack.append("xyz"[i])
+                                inner.append(("id", "POP_ALL"))
+                                text += "".join(reversed(stack))
+                                stack = []
+                                for i in range(after):
+                                    inner.append(("pushlit", "w"))
+                                    stack.append("w")
+                                grp = _group(kind, tuple(inner))
+                                if kind in _ROLLBACK:
+                                    stack = list(old)
+                                    body = (grp, ("str", text))
+                                else:
+                                    body = (grp,)
+                                if outer == "opt":
+                                    body = (("opt", ("seq", body) if len(body) > 1 else body[0]),)
+                                elif outer == "and":
+                                    body = (("and", ("seq", body) if len(body) > 1 else body[0]), ("str", text))
+                                    stack = list(old)
+                                for observe in (("id", "PEEK_ALL"), ("slice", None, None)):
+                                    order = tuple(stack) if observe[0] == "slice" else tuple(reversed(stack))
+                                    rules = [("r0", "", ("seq", pre + body + (observe, ("id", "EOI"))))]
+                                    good = text + "".join(order)
+                                    inputs = [good] if len(stack) < 2 else [good, text + "".join(reversed(order))]
+                                    if old and tuple(stack) != old:
+                                        inputs.append(text + "".join(reversed(old)))
+                                        inputs.append(text + "".join(old))
+                                    inputs = list(dict.fromkeys(inputs))
+                                    ctx.count("clear_matrix_grammars")
+                                    refdiff.check_grammar(ctx, modes, rules, [("r0", i, 0) for i in inputs], MODES,
+                                                          lambda stats, want, call: bool(stats.get("stack_change_undone")),
+                                                          exhaustive=True)
+                                    if len(ctx.samples) < 8 and kind == "alt-fail" and n0 == 2 and j == 2 and m == 1 and outer is None:
+                                        ctx.sample({"clear_matrix_grammar": gprint.grammar_text(rules), "inputs": inputs})
+
+
 # ----------------------------------------------------------------------------- plumbing
 
 
@@ -381,6 +447,7 @@ def run_shard(ctx: Ctx, spec):
 
         th()
         run_exhaustive_histories(ctx, modes, spec["idx"], size["exh"])
+        run_clear_matrix(ctx, modes, spec["idx"])
         run_ops(ctx, modes, size["ops"])
     finally:
         modes.close()
